@@ -735,3 +735,51 @@ def derives_only_from(cfg, expr, at, is_source, unwrap, RD=None, _seen=None):
                     return False
         return True
     return False
+
+
+def skips_in_iteration(cfg, loop_stmt, is_required):
+    """a path through ONE iteration of `loop_stmt` (from the loop head's body edge back to the head, or out through
+    break/return) that passes no node satisfying `is_required` - exception edges not followed.  None if there is none."""
+    heads = [n for n in cfg.nodes if n.stmt is loop_stmt and n.kind in ('for', 'loophead')]
+    if not heads:
+        return None
+    head = heads[0]
+    starts = [s for s, l in head.succ if l in ('next', None) and l != 'done'] if head.kind == 'for' else None
+    if head.kind == 'loophead':
+        # body entry = T successors of the test nodes of the while
+        starts = []
+        st = [head]
+        seen = set()
+        while st:
+            n = st.pop()
+            for s, l in n.succ:
+                if s.stmt is loop_stmt and s.kind == 'test' and s.id not in seen:
+                    seen.add(s.id)
+                    st.append(s)
+                elif n.kind == 'test' and l == 'T' and s.id not in seen:
+                    starts.append(s)
+    inside = set()
+    for n in cfg.nodes:
+        p = n.stmt
+        while p is not None:
+            if p is loop_stmt:
+                inside.add(n.id)
+                break
+            p = getattr(p, '_parent', None)
+    for s0 in starts:
+        if is_required(s0):
+            continue
+        st = [(s0, [s0])]
+        seen = {s0.id}
+        while st:
+            n, path = st.pop()
+            for s, l in n.succ:
+                if l == 'exc':
+                    continue
+                if s is head or s.id not in inside:
+                    return path + [s]
+                if is_required(s) or s.id in seen:
+                    continue
+                seen.add(s.id)
+                st.append((s, path + [s]))
+    return None
